@@ -3,6 +3,7 @@ import z3
 
 from pyvc.runner import Contract
 from pyvc.interp import LoopSpec
+from pyvc.engine import Outcome
 from pyvc.sym import SymInt, SymStr, SymBool, SymList, ite, land, lor, lnot, implies, is_sym, _i, _s
 from qbee import utils
 from qbee.utils import Empty
@@ -138,29 +139,60 @@ class _Mod:
     pass
 
 
+def dispatch(h, p1, node):
+    """what CompilePass.process_tree does for a node without children: the pass's own look-up of the 'pre' and the
+    'post' function by node name (so a handler the contract author did not know about is run too), then the reset of
+    cur_routine after a SUB/FUNCTION block"""
+    for when in ('pre', 'post'):
+        f = p1.get_node_compile_func(node, when)
+        if f is not None:
+            out = h.call(f, node)
+            if not out.returned:
+                return out
+    if isinstance(node, (stmt.SubBlock, stmt.FunctionBlock)):
+        p1.cur_routine = p1.compilation.routines['_main']
+    return out if f is not None else Outcome('return', None)
+
+
 def build_pipeline(h, shape, line_no):
-    """shape: string over 'L' (label) 'N' (line number) 'D' (DATA with one item) 'E' (DATA with two items).
+    """shape: string over 'L' (label) 'N' (line number) 'D' (DATA with one item) 'E' (DATA with two items)
+    'S' (an empty SUB block) 'F' (an empty FUNCTION block).
     returns (events for the spec, compilation unit, code object, labels)"""
     cu = CompilationUnit()
     p1 = Pass1(cu)
     events = []
     labels = []
-    li = di = 0
+    li = di = ri = 0
     for ch in shape:
         if ch == 'L':
             name = f'lab{li}'
             li += 1
             node = program.Label(name)
             node._parent_routine = cu.main_routine
-            out = h.call(p1.process_label_pre, node)
+            out = dispatch(h, p1, node)
             events.append(('label', name))
             labels.append(name)
         elif ch == 'N':
             node = h.call(program.LineNo, line_no).value
             node._parent_routine = cu.main_routine
-            out = h.call(p1.process_lineno_pre, node)
+            out = dispatch(h, p1, node)
             events.append(('label', node.canonical_name))
             labels.append(line_no)
+        elif ch in 'SF':
+            # a procedure between DATA statements: the specification (spec.data_items) knows nothing of procedures -
+            # DATA order and RESTORE targets are a matter of source order only
+            node = object.__new__(stmt.SubBlock if ch == 'S' else stmt.FunctionBlock)
+            if ch == 'S':
+                node.name = f'proc{ri}'
+            else:
+                node._name = f'proc{ri}'
+            ri += 1
+            node.params = []
+            node.is_static = False
+            node.block = []
+            node.parent = None
+            node._parent_routine = cu.main_routine
+            out = dispatch(h, p1, node)
         else:
             items = [h.str(f'item{di}_{j}') for j in range(1 if ch == 'D' else 2)]
             di += 1
@@ -168,7 +200,7 @@ def build_pipeline(h, shape, line_no):
             node.parent = None
             node._parent_routine = cu.main_routine
             node.items = list(items)
-            out = h.call(p1.process_data_pre, node)
+            out = dispatch(h, p1, node)
             events.append(('data', items))
         if not out.returned:
             h.prove('pass1.no_exception', False, detail=repr(out))
@@ -246,8 +278,44 @@ def all_shapes(maxlen):
             if s.count('N') <= 1:
                 out.append(s)
     out += ['LEDL', 'ELD', 'LELD', 'DLEND']
+    # procedures between DATA statements (they must not disturb grouping or order)
+    out += ['DLDSD', 'DSD', 'LDSD', 'DLSD', 'DNDFD', 'SDLD', 'DLDFLD', 'LSD', 'DSLD']
     return out
 
+
+
+# ---------------------------------------------------------------------------------------------------------------
+# frame of the placement lemma: the state it is an invariant of is written only by the functions it runs
+
+def body_placement_frame(h):
+    """data.placement proves grouping and order from process_label_pre / process_lineno_pre / process_data_pre acting
+    on Pass1._last_label and compilation.data.  That carries over to whole programs only if no OTHER function of the
+    compiler writes that state (a handler for another node kind that resets the current label, a pass that re-orders
+    compilation.data).  Decided on the syntax tree of the real modules: every function that stores to an attribute
+    named _last_label, or mentions an attribute named data on a compilation, is one of those the lemma runs."""
+    import ast, inspect
+    from qbee import compiler, qvm_codegen, stmt as stmt_mod, expr as expr_mod, evalctx, program as program_mod
+    writers, touch = set(), set()
+    for mod in (compiler, qvm_codegen, stmt_mod, expr_mod, evalctx, program_mod):
+        tree = ast.parse(inspect.getsource(mod))
+        for cls in [n for n in ast.walk(tree) if isinstance(n, ast.ClassDef)] + [tree]:
+            for fn in [n for n in cls.body if isinstance(n, (ast.FunctionDef, ast.AsyncFunctionDef))]:
+                q = f'{mod.__name__}:{cls.name + "." if isinstance(cls, ast.ClassDef) else ""}{fn.name}'
+                for n in ast.walk(fn):
+                    if isinstance(n, ast.Attribute) and n.attr == '_last_label' and isinstance(n.ctx, (ast.Store, ast.Del)):
+                        writers.add(q)
+                    if isinstance(n, ast.Attribute) and n.attr == 'data' and isinstance(n.value, (ast.Attribute, ast.Name)) \
+                            and (getattr(n.value, 'attr', None) or getattr(n.value, 'id', None)) in ('compilation', 'self', 'context'):
+                        if mod is compiler or (getattr(n.value, 'attr', None) or getattr(n.value, 'id', None)) != 'self':
+                            touch.add(q)
+                    if isinstance(n, ast.Call) and isinstance(n.func, ast.Name) and n.func.id in ('setattr', 'delattr', 'vars'):
+                        writers.add(q + ' (setattr/delattr/vars)')
+    want_w = {'qbee.compiler:Pass1.__init__', 'qbee.compiler:Pass1.process_label_pre', 'qbee.compiler:Pass1.process_lineno_pre'}
+    h.prove('current_label_is_written_only_by_the_label_and_line_number_handlers', writers == want_w,
+            detail=f'unexpected {sorted(writers - want_w)} missing {sorted(want_w - writers)}')
+    want_t = {'qbee.compiler:Pass1.process_data_pre', 'qbee.compiler:CompilationUnit.__init__', 'qbee.qvm_codegen:QvmCodeGen.init_code'}
+    h.prove('data_table_is_touched_only_by_the_data_handler_and_init_code', touch == want_t,
+            detail=f'unexpected {sorted(touch - want_t)} missing {sorted(want_t - touch)}')
 
 # ---------------------------------------------------------------------------------------------------------------
 # the cursor: DataDevice._exec_read / _exec_restore
@@ -330,6 +398,11 @@ CONTRACTS += [
              trusted=['part layouts enumerated (<= 3 parts, <= 2 items each); item texts symbolic']),
     Contract('data.restore', PROPS, ['qvm.machine:DataDevice._exec_restore'], body_restore,
              cases=[(pl, k) for pl in [(1,), (1, 2)] for k in range(len(pl))]),
+    Contract('data.placement.frame', PROPS, ['qbee.compiler:Pass1.process_data_pre', 'qbee.compiler:Pass1.process_label_pre',
+                                             'qbee.compiler:Pass1.process_lineno_pre', 'qbee.qvm_codegen:QvmCodeGen.init_code'],
+             body_placement_frame,
+             trusted=['frame decided syntactically on the modules qbee.compiler, qvm_codegen, stmt, expr, evalctx, program '
+                      '(attribute stores by name; setattr/delattr/vars flagged); aliasing through other attribute names is not tracked']),
 ]
 
 
